@@ -391,10 +391,18 @@ func (pm *Portmapper) handleCall(data []byte, remoteAddr net.Addr) ([]byte, erro
 		switch procedure {
 		case 0: // RPCBPROC_NULL
 			result = nil
-		case 1: // RPCBPROC_SET - not implemented
-			result = pm.handleRpcbSet(r)
-		case 2: // RPCBPROC_UNSET - not implemented
-			result = pm.handleRpcbUnset(r)
+		case 1: // RPCBPROC_SET
+			if !peerMayModify(remoteAddr) {
+				result = pm.encodeBool(false)
+			} else {
+				result = pm.handleRpcbSet(r)
+			}
+		case 2: // RPCBPROC_UNSET
+			if !peerMayModify(remoteAddr) {
+				result = pm.encodeBool(false)
+			} else {
+				result = pm.handleRpcbUnset(r)
+			}
 		case 3: // RPCBPROC_GETADDR
 			result = pm.handleGetAddr(r)
 		case 4: // RPCBPROC_DUMP
@@ -464,6 +472,21 @@ func (pm *Portmapper) encodeEmptyString() []byte {
 	return buf.Bytes()
 }
 
+// peerMayModify reports whether a peer may change the registry (SET/UNSET).
+// Only loopback peers may; an address that does not parse as an IP is not
+// loopback. A nil address denotes an in-process caller.
+func peerMayModify(remoteAddr net.Addr) bool {
+	if remoteAddr == nil {
+		return true
+	}
+	host, _, err := net.SplitHostPort(remoteAddr.String())
+	if err != nil {
+		return false
+	}
+	ip := net.ParseIP(host)
+	return ip != nil && ip.IsLoopback()
+}
+
 func (pm *Portmapper) handleGetPort(r io.Reader) []byte {
 	var prog, vers, prot, port uint32
 	if err := binary.Read(r, binary.BigEndian, &prog); err != nil {
@@ -509,12 +532,8 @@ func (pm *Portmapper) handleDump() []byte {
 
 func (pm *Portmapper) handleSet(r io.Reader, remoteAddr net.Addr) []byte {
 	// Only allow SET from localhost
-	if remoteAddr != nil {
-		host, _, _ := net.SplitHostPort(remoteAddr.String())
-		ip := net.ParseIP(host)
-		if ip != nil && !ip.IsLoopback() {
-			return pm.encodeBool(false)
-		}
+	if !peerMayModify(remoteAddr) {
+		return pm.encodeBool(false)
 	}
 
 	var prog, vers, prot, port uint32
@@ -538,12 +557,8 @@ func (pm *Portmapper) handleSet(r io.Reader, remoteAddr net.Addr) []byte {
 
 func (pm *Portmapper) handleUnset(r io.Reader, remoteAddr net.Addr) []byte {
 	// Only allow UNSET from localhost
-	if remoteAddr != nil {
-		host, _, _ := net.SplitHostPort(remoteAddr.String())
-		ip := net.ParseIP(host)
-		if ip != nil && !ip.IsLoopback() {
-			return pm.encodeBool(false)
-		}
+	if !peerMayModify(remoteAddr) {
+		return pm.encodeBool(false)
 	}
 
 	var prog, vers, prot, port uint32
